@@ -68,6 +68,71 @@ func init() {
 		}
 		return nil
 	}
+	// EC3SpecificBox (dec3): first byte of every independent substream
+	// (3 bytes, or 4 with num_dep_sub > 0). "dec3.sub.nodep" yields only the
+	// substreams with num_dep_sub == 0, whose last bit is reserved.
+	dec3 := func(onlyNoDep bool) func(p []byte) []int {
+		return func(p []byte) []int {
+			if len(p) < 2 {
+				return nil
+			}
+			n := int(p[1]&7) + 1
+			o := 2
+			var out []int
+			for i := 0; i < n && o+3 <= len(p); i++ {
+				dep := (p[o+2] >> 1) & 0x0f
+				if !onlyNoDep || dep == 0 {
+					out = append(out, o)
+				}
+				o += 3
+				if dep > 0 {
+					o++
+				}
+			}
+			return out
+		}
+	}
+	locators["dec3.sub"] = dec3(false)
+	locators["dec3.sub.nodep"] = dec3(true)
+	// SampleGroupDescriptionBox with grouping_type 'seig': first byte of every
+	// CencSampleEncryptionInformationGroupEntry.
+	locators["sgpd.seig.entry"] = func(p []byte) []int {
+		if len(p) < 12 || string(p[4:8]) != "seig" {
+			return nil
+		}
+		ver := p[0]
+		o := 8
+		var defLen uint32
+		if ver >= 1 {
+			defLen = uint32(p[8])<<24 | uint32(p[9])<<16 | uint32(p[10])<<8 | uint32(p[11])
+			o += 4
+		}
+		if ver >= 2 {
+			o += 4
+		}
+		if o+4 > len(p) {
+			return nil
+		}
+		n := int(uint32(p[o])<<24 | uint32(p[o+1])<<16 | uint32(p[o+2])<<8 | uint32(p[o+3]))
+		o += 4
+		var out []int
+		for i := 0; i < n && i < 4096; i++ {
+			l := defLen
+			if ver >= 1 && defLen == 0 {
+				if o+4 > len(p) {
+					break
+				}
+				l = uint32(p[o])<<24 | uint32(p[o+1])<<16 | uint32(p[o+2])<<8 | uint32(p[o+3])
+				o += 4
+			}
+			if l == 0 || o+int(l) > len(p) || int(l) < 0 {
+				break
+			}
+			out = append(out, o)
+			o += int(l)
+		}
+		return out
+	}
 	// LoudnessBaseBox (tlou/alou): first byte of every loudness base.
 	locators["lou.base"] = func(p []byte) []int {
 		if len(p) < 5 {
